@@ -28,7 +28,7 @@ CLAIMED = {
  "C10": ("seqmc", "model_checking",
    "explicit-state breadth-first search over the real Db, tree model with shared nodes and reference counts, full tree walks through the reader API after every event",
    "Histories of InsertTree / ReferenceTree / DereferenceTree over 3 root keys with distinct live roots, shapes incl. depth-3 chains, existing-address children (same node twice, under a new child), multipart node data, fan-out 255/256 (root and inner), column variants plain / no direct access / append-only / ref-counted roots, all stage interleavings (n<=2..3) and drained histories (n<=4..5), reopen. Oracle: exact read-back of every live tree via TreeReader and the direct API; unrepresentable insertions rejected; when all commits are logged dead roots unreadable and get_num_column_value_entries = roots + distinct nodes of the model.",
-   "Bounds per scenario in the evidence. Slot-level reclamation (free lists) is checked through the entry count here and by the file parser of C14 (when built).",
+   "Bounds per scenario in the evidence. `./check C10` runs two parts one after the other: the standard build (evidence C10.json) and, in the build whose smallest reference-count table has 2^4 chunks (guard pdb_verif_small_index), a graph search in which three trees over 600 shared leaves make the reference-count table grow while counts are raised and lowered and migration batches, cleanup and reopen are interleaved (evidence C10-small-index.json). Slot-level reclamation (free lists) is checked through the entry count here and by the file parser of C14.",
    "DESIGN.md §3 E1, §4 C10"),
  "C11": ("seqmc", "model_checking",
    "explicit-state breadth-first search over the real Db with reader lock/unlock as history events; snapshot oracle for the locked tree, commit-order model for all columns",
